@@ -354,6 +354,8 @@ impl<T> Buffer<T> {
         self.state.0.lock().unwrap().free()
     }
     pub fn wait_for_write(&self, need: usize) -> usize {
+        #[cfg(feature = "verif-hooks")]
+        let _verif_pt = crate::verif::ScopePoint::new(crate::verif::pt::WAIT_WRITE_RETURN, need, 0);
         let (lock, cv) = &*self.state;
         cv.wait_timeout_while(
             lock.lock().unwrap(),
@@ -365,6 +367,8 @@ impl<T> Buffer<T> {
         .free()
     }
     pub fn wait_for_read(&self, need: usize) -> usize {
+        #[cfg(feature = "verif-hooks")]
+        let _verif_pt = crate::verif::ScopePoint::new(crate::verif::pt::WAIT_READ_RETURN, need, 0);
         let (lock, cv) = &*self.state;
         cv.wait_timeout_while(
             lock.lock().unwrap(),
@@ -382,6 +386,8 @@ impl<T: Copy> Buffer<T> {
     ///
     /// Will only be called from the read buffer.
     pub(in crate::circular_buffer) fn consume(&self, n: usize) {
+        #[cfg(feature = "verif-hooks")]
+        let _verif_pt = crate::verif::ScopePoint::new(crate::verif::pt::CONSUME_RETURN, n, 0);
         let (lock, cv) = &*self.state;
         let mut s = lock.lock().unwrap();
         assert!(
@@ -423,6 +429,8 @@ impl<T: Copy> Buffer<T> {
     ///
     /// Will only be called from the write buffer.
     pub(in crate::circular_buffer) fn produce(&self, n: usize, tags: &[Tag]) {
+        #[cfg(feature = "verif-hooks")]
+        let _verif_pt = crate::verif::ScopePoint::new(crate::verif::pt::PRODUCE_RETURN, n, 0);
         if n == 0 {
             debug_assert!(tags.is_empty());
             if !tags.is_empty() {
@@ -469,6 +477,8 @@ impl<T: Copy> Buffer<T> {
     ///
     /// TODO: no need for Result in API.
     pub fn read_buf(self: Arc<Self>) -> Result<(BufferReader<T>, Vec<Tag>)> {
+        #[cfg(feature = "verif-hooks")]
+        let _verif_pt = crate::verif::ScopePoint::new(crate::verif::pt::READ_BUF_RETURN, 0, 0);
         let s = self.state.0.lock().unwrap();
         let (start, end) = s.read_range();
         let mut tags = Vec::with_capacity(s.tags.len());
@@ -504,6 +514,8 @@ impl<T: Copy> Buffer<T> {
 
     /// Get the write slice.
     pub fn write_buf(self: Arc<Self>) -> Result<BufferWriter<T>> {
+        #[cfg(feature = "verif-hooks")]
+        let _verif_pt = crate::verif::ScopePoint::new(crate::verif::pt::WRITE_BUF_RETURN, 0, 0);
         let s = self.state.0.lock().unwrap();
         let (start, end) = s.write_range();
         drop(s);
